@@ -115,7 +115,15 @@ var zzDsts = []string{"1356:chB:s2", "1356:1356:sB", "1357:chB:s2"}
 // ZZH_C02_step: one HandleIBTP from an arbitrary consistent pre-state (Inv-IC):
 // for the pair (S,D): InterchainCounter[S][D]=c, ReceiptCounter[S][D]=r (mirrored on D), r<=c<2^62,
 // a transaction record exists for S-D-j exactly for j<=c. Destination services are ordered.
-func ZZH_C02_step() {
+func ZZH_C02_step() { zzHandleIBTPStep(6, false) }
+
+// ZZH_C16_gate: the same step restricted to requests, with source and destination service
+// status ranging over ten governance statuses: a request is accepted as BEGIN only from an
+// available (or freezing) source to an existing, available, non-blocking destination;
+// destination problems yield begin_failure, source problems a rejection without effect.
+func ZZH_C16_gate() { zzHandleIBTPStep(10, true) }
+
+func zzHandleIBTPStep(nStatus int, onlyRequests bool) {
 	ic := zzNewICWorld()
 	w := ic.w
 	w.audit = zz.Choice("audit", 2) == 1
@@ -131,10 +139,15 @@ func ZZH_C02_step() {
 	t := pb.IBTP_Type(zz.I32("type"))
 	zz.Assume(t >= 0)
 	zz.Assume(t <= 4)
+	if onlyRequests {
+		zz.Assume(t == pb.IBTP_INTERCHAIN)
+		zz.Assume(c == 0)
+		zz.Assume(i == 1)
+	}
 	// services: source always registered with arbitrary status; local destination registered or not
-	ic.services["chA:s1"] = zzService("chA", "s1", "src", 6, "")
+	ic.services["chA:s1"] = zzService("chA", "s1", "src", nStatus, "")
 	if dk == 0 && zz.Choice("dstRegistered", 2) == 1 {
-		ic.services["chB:s2"] = zzService("chB", "s2", "dstsvc", 6, from)
+		ic.services["chB:s2"] = zzService("chB", "s2", "dstsvc", nStatus, from)
 	}
 	// interchain records
 	icF := &pb.Interchain{ID: from, InterchainCounter: map[string]uint64{to: c}, ReceiptCounter: map[string]uint64{to: r},
@@ -172,7 +185,9 @@ func ZZH_C02_step() {
 	isReq := t == pb.IBTP_INTERCHAIN
 	isRcpt := t == pb.IBTP_RECEIPT_SUCCESS || t == pb.IBTP_RECEIPT_FAILURE || t == pb.IBTP_RECEIPT_ROLLBACK
 	zz.Cover("C02.request-accepted", res.Ok && isReq)
-	zz.Cover("C02.receipt-accepted", res.Ok && isRcpt)
+	if !onlyRequests {
+		zz.Cover("C02.receipt-accepted", res.Ok && isRcpt)
+	}
 	zz.Cover("C02.rejected", !res.Ok)
 	zz.Tag("C02.D15", w.audit && !toExists && dk == 1)
 	zz.Assert("C02.reject-no-effect", res.Ok || w.unchanged(snap))
@@ -211,6 +226,11 @@ func ZZH_C02_step() {
 				s := ic.services["chB:s2"]
 				zz.Assert("C16.dst-gate", s != nil && (s.Status == governance.GovernanceAvailable || s.Status == governance.GovernanceFreezing) && len(s.Permission) == 0)
 			}
+		} else if dk == 0 {
+			// begin_failure: the local destination really was unusable
+			s := ic.services["chB:s2"]
+			zz.Assert("C16.begin-failure-only-if-dst-unusable", s == nil || !(s.Status == governance.GovernanceAvailable || s.Status == governance.GovernanceFreezing) || len(s.Permission) != 0)
+			zz.Assert("C16.begin-failure-reported", string(res.Result) == "begin_failure")
 		}
 		src := ic.services["chA:s1"]
 		zz.Assert("C16.src-gate", src.Status == governance.GovernanceAvailable || src.Status == governance.GovernanceFreezing)
